@@ -9,7 +9,17 @@ import (
 	"github.com/openGemini/openGemini/lib/msgservice"
 	"github.com/openGemini/openGemini/lib/syscontrol"
 	"github.com/openGemini/openGemini/lib/util"
+	meta2 "github.com/openGemini/openGemini/lib/util/lifted/influx/meta"
 )
+
+// serveAuthorizedDebugQuery serves /debug/query. It exposes engine internals like
+// /debug/ctrl does, so with authentication enabled it requires an administrator.
+func (h *Handler) serveAuthorizedDebugQuery(w http.ResponseWriter, r *http.Request, user meta2.User) {
+	if !h.requireAdmin(w, user) {
+		return
+	}
+	h.serveDebugQuery(w, r)
+}
 
 // curl -i -XGET 'http://127.0.0.1:8086/debug/query?mod=shards&db=mydb&rp=myrp&pt=2&shard=1'
 func (h *Handler) serveDebugQuery(w http.ResponseWriter, r *http.Request) {
